@@ -25,9 +25,11 @@ GENS = [dict(tool="genloop", out="GenLoop.v", args=["{repo}"])]
 
 
 def startfault(n=60, tags="verif"):
-    """oracle-only run (no model trace): engine / client starts in which one descriptor-creating or registering
-    system call fails; whatever the framework created must be closed again when Run / Start returns"""
-    return dict(cmd="drv-loop", variant="startfault" + ("-pollopt" if "poll_opt" in tags else ""), corpus_family="loopstart",
+    """engine / client starts in which one descriptor-creating or registering system call fails; whatever the
+    framework created must be closed again when Run / Start returns.  Server starts are also replayed by the model of
+    the start sequence (Model/Start.v, family loopstart: outcome, descriptors created per kind, closes, leftovers,
+    stray closes); client starts and the stop-race cases are judged by the direct oracles only"""
+    return dict(cmd="drv-loop", variant="startfault" + ("-pollopt" if "poll_opt" in tags else ""), family="loopstart",
                 unix_swap=(LOOP_SWAP_OPT if "poll_opt" in tags else LOOP_SWAP), shrink=False, netns=True,
                 args=["-focus", "startfault", "-n", str(n)], tags=tags, sites=["^fd-leak$", "^fd-not-owned$", "^engine-start$", "^hang$"],
                 timeout=dict(quick=600, thorough=3000))
